@@ -97,7 +97,7 @@ def run(ctx):
         run_harness(ctx, "vfiles", ["c27", "--replay", ctx.replay, "--out", ctx.path("res.json")])
         res = json.load(open(ctx.path("res.json")))
         for v in res["violations"]:
-            report_violation(ctx, v)
+            report_violation(ctx, v, key=known_key(v))
         write_evidence(ctx, "exploration", {"evaluations": max(1, res["evaluations"]), "distinct_nontrivial": 2, "rule": "replay of one recorded case",
                                             "samples": res["samples"] or [{"replay": ctx.replay}]})
         return
